@@ -86,6 +86,21 @@ theorem bp_synchronize_rcu_refines (trk : Bool) (fuel : Nat) (g : Bool) (env : E
   have := (Ok_iff _ _ _ _ _).1 (bp_sync_holds trk fuel g env inp ss wins hI out h)
   exact ⟨this.1, fun labs ss' wins' ha => ⟨absRun_lrun _ _ _ _ _ _ _ ha, this.2 labs ss' wins' ha⟩⟩
 
+/-! ## projection / frame lemmas of the local automaton (`Src/SyncLocal.lean`, shared with memb / mb) -/
+
+theorem proj_enabled (c : Gp.Cfg) (s : Gp.State) (ls ls' : LState) (l : LLabel)
+    (hp : Sync.Proj s ls) (hl : Sync.lstep ls l = some ls') (hg : Sync.Guard c s l) :
+    ∃ s', Gp.step c s l.toL2 = some s' ∧ Sync.Proj s' ls' := Sync.proj_enabled c s ls ls' l hp hl hg
+
+theorem proj_step (c : Gp.Cfg) (s s' : Gp.State) (ls : LState) (l : LLabel)
+    (hp : Sync.Proj s ls) (st : Gp.step c s l.toL2 = some s') (ho : Sync.Obs s l)
+    (hwf : ∀ j, (s.reg j = true ∨ s.inp j = true ∨ s.snap j = true) → j < c.n) :
+    ∃ ls', Sync.lstep ls l = some ls' ∧ Sync.Proj s' ls' := Sync.proj_step c s s' ls l hp st ho hwf
+
+theorem proj_frame (c : Gp.Cfg) (s s' : Gp.State) (ls : LState) (l : Gp.Label)
+    (hp : Sync.Proj s ls) (st : Gp.step c s l = some s') (ho : Sync.owned l = false) : Sync.Proj s' ls :=
+  Sync.proj_frame c s s' ls l hp st ho
+
 /-! ## non-vacuity -/
 
 /-- labels, final pc, control and number of events of a run -/
@@ -204,6 +219,19 @@ theorem quiet_silent (trk : Bool) (ss : SS) (e : Event) (hq : QuietEv e = true) 
 theorem exec_privSafe_refines (st : Stmt) (hok : privOK st = true) (fuel : Nat) (env : Env) (inp : List Val) (out : Out)
     (hs : PrivSafe env.priv) (h : exec fuel st env inp = .ok out) : PrivSafe out.env.priv :=
   exec_privSafe st hok fuel env inp out hs h
+
+/-! ## projection / frame lemmas of the local automaton (`Src/SyncQLocal.lean`) -/
+
+theorem proj_enabled (c : Qsbr.Cfg) (s : Qsbr.State) (ls ls' : LState) (l : LLabel)
+    (hp : Proj s ls) (hl : lstep ls l = some ls') (hg : Guard c s l) :
+    ∃ s', Qsbr.step c s l.toL2 = some s' ∧ Proj s' ls' := SyncQ.proj_enabled c s ls ls' l hp hl hg
+theorem proj_step (c : Qsbr.Cfg) (s s' : Qsbr.State) (ls : LState) (l : LLabel)
+    (hp : Proj s ls) (st : Qsbr.step c s l.toL2 = some s') (ho : Obs s l)
+    (hwf : ∀ j, (s.reg j = true ∨ s.inp j = true) → j < c.n) :
+    ∃ ls', lstep ls l = some ls' ∧ Proj s' ls' := SyncQ.proj_step c s s' ls l hp st ho hwf
+theorem proj_frame (c : Qsbr.Cfg) (s s' : Qsbr.State) (ls : LState) (l : Qsbr.Label)
+    (hp : Proj s ls) (st : Qsbr.step c s l = some s') (ho : owned l = false) : Proj s' ls :=
+  SyncQ.proj_frame c s s' ls l hp st ho
 
 /-! ## non-vacuity -/
 
